@@ -184,6 +184,10 @@ def run_histories(ctx, hists, tag):
             rc, len(impl), len(ops), log[-600:]))
         return None
     model = c.run_driver(ctx, "model", ops)
+    if tag == "h":
+        impl = c.settle(ctx, "storage.go vs KM.Storage", ops, impl, model,
+                        lambda: c.run_harness(ctx, "cmd/keymasterd", "C15", ops, timeout=1500, tag="again-"),
+                        canon=canon, pre=canon_rerr)
     res = []
     pos = 0
     for h in hists:
